@@ -719,7 +719,10 @@ class C01(ScanProperty):
     def gen_case(self, rng, i):
         if self.pending:
             return self.pending.pop()
-        if i % 3 == 0:
+        if i % 8 == 7:
+            # a token that begins inside a run of the character at which the previous attempt failed
+            modes, inp = gen.gen_run_retry_case(rng)
+        elif i % 3 == 0:
             modes = gen.gen_config(rng, nmodes=1, la_prob=0.0, trans=False, depth=rng.randint(1, 3), max_pat=6)
             inp = gen.gen_input(rng, modes)
         else:
